@@ -12,7 +12,8 @@ META = {
             "large enough and disjoint from every live block, n != 1 is refused, destroy releases every chunk once; MallocAllocator/AlignedAllocator "
             "never pass a wrapped size to the system; the DebugAllocator block ends exactly at the guard page and deallocate finds it (refuted for the "
             "tree as found when the byte size is a multiple of the page size).  The model is tied to dune/common/{pool,malloc,aligned,debug}allocator.hh "
-            "on every run by replaying exhaustive short scripts and seeded random walks on ~500 template instantiations.",
+            "on every run by replaying exhaustive short scripts and seeded random walks on ~500 template instantiations; Dune::isAligned "
+            "(std::align bit trick) decides p mod 2^k = 0; AlignedBase placement new reports exactly the misaligned addresses.",
     "note": "Trusted: Coq kernel, extraction, OCaml driver, C++ harness (operator new recorder, tag writing, EFAULT probes), g++, glibc "
             "malloc/aligned_alloc/mmap return fresh (aligned) memory; sizeof(void*)=alignof(void*)=8.",
     "design_ref": "DESIGN.md section 4 C15",
@@ -45,7 +46,7 @@ EXH_CFG = [("pool", 4, 4, 0), ("pool", 4, 4, 16), ("pool", 12, 4, 41), ("pa", 1,
            ("pool", 8, 8, 1024)]
 
 
-def write_configs(ctx):
+def config_lines():
     lines = []
     for sT, aT in TYPES:
         for S in pool_S(sT):
@@ -56,13 +57,36 @@ def write_configs(ctx):
         lines.append("SYS(%d,%d)" % (sT, aT))
     for sT, aT, al in ALIGNED:
         lines.append("ALIGNED(%d,%d,%d)" % (sT, aT, al))
+    return lines
+
+
+def config_of(case):
+    t = case.split()
+    if t[0] in ("pool", "pa"):
+        return "%s(%s,%s,%s)" % (t[0].upper(), t[1], t[2], t[3])
+    if t[0] == "malloc":
+        return "SYS(%s,%s)" % (t[1], t[2])
+    if t[0] == "debug":
+        return "SYS(%s,%s)" % (t[2], t[3])
+    if t[0] == "aligned":
+        return "ALIGNED(%s,%s,%s)" % (t[1], t[2], t[3])
+    return None
+
+
+def write_configs(ctx):
+    """configs.inc: every instantiation; configs_san.inc: the subset compiled into the sanitizer build (quick tier: a quarter of the
+    pool instantiations + the exhaustive-script configurations, to keep the compile time down; thorough tier: all)."""
+    lines = config_lines()
     for kind, sT, aT, s in EXH_CFG:
         assert "%s(%d,%d,%d)" % (kind.upper(), sT, aT, s) in lines, (kind, sT, aT, s)
-    txt = "\n".join(lines) + "\n"
-    p = ctx.path("configs.inc")
-    if not os.path.exists(p) or open(p).read() != txt:
-        open(p, "w").write(txt)
-    return len(lines)
+    exh = set("%s(%d,%d,%d)" % (k.upper(), a, b, c) for k, a, b, c in EXH_CFG)
+    san = [l for i, l in enumerate(lines) if not ctx.quick or i % 4 == 0 or l in exh or l.startswith("SYS") or l.startswith("ALIGNED")]
+    for name, ls in (("configs.inc", lines), ("configs_san.inc", san)):
+        txt = "\n".join(ls) + "\n"
+        p = ctx.path(name)
+        if not os.path.exists(p) or open(p).read() != txt:
+            open(p, "w").write(txt)
+    return len(lines), set(san)
 
 
 # ----------------------------------------------------------------------------- geometry (python copy only to steer the generator)
@@ -181,7 +205,7 @@ def gen(ctx):
         for sT, aT, al in cfgs:
             ms = SIZE_MAX // sT
             big = [ms, ms + 1, ms - 1, 2 ** 63, SIZE_MAX, 2 ** 64 // sT + 1, (2 ** 64 + 8 * sT - 1) // sT]
-            big = [b for b in big if 0 <= b <= SIZE_MAX and b * sT >= 2 ** 46]
+            big = [b for b in big if 0 <= b <= SIZE_MAX and b * sT >= 2 ** 47]
             small = [0, 1, 2, 3, 7, 16, 100, 1000]
             pre = "%s %d %d %s" % (kind, sT, aT, "" if al is None else "%d " % al)
             cases.append(pre + " ".join(["a%d" % n for n in small + big] + ["f0"] * len(small)))
@@ -231,6 +255,10 @@ def gen(ctx):
                              2 ** 64 - a, 2 ** 64 - 1] + [rng.randrange(2 ** 48) for _ in range(4)] + [rng.randrange(2 ** 36) * a for _ in range(3)])):
             if 0 <= p < 2 ** 64:
                 cases.append("isaligned %d %d" % (p, a))
+    # --- AlignedBase<align,.>::operator new(count, ptr) (AlignedNumber<double,align> placed at a 4096-aligned buffer + off)
+    for a in (16, 32, 64, 128):
+        for off in sorted(set([0, 1, 8, a // 2, a - 1, a, a + 1, a + 8, 2 * a, 3 * a + a // 2, 4096, 4096 + a // 2, 8192 - a] + [rng.randrange(8192) for _ in range(6)])):
+            cases.append("alignedbase %d %d" % (a, off))
     return cases
 
 
@@ -238,7 +266,7 @@ def gen(ctx):
 def case_parts(case):
     t = case.split()
     kind = t[0]
-    npar = {"pool": 3, "pa": 3, "malloc": 2, "aligned": 3, "debug": 3, "isaligned": 2}[kind]
+    npar = {"pool": 3, "pa": 3, "malloc": 2, "aligned": 3, "debug": 3, "isaligned": 2, "alignedbase": 2}[kind]
     return kind, [int(x) for x in t[1:1 + npar]], t[1 + npar:]
 
 
@@ -280,6 +308,8 @@ def sig_of(case, impl_line, verdict):
         return "C15:%s:served-beyond-max_size" % kind
     if "destroy" in verdict:
         return "C15:%s:destroy" % kind
+    if "not refused" in verdict:
+        return "C15:%s:n-not-1-served" % kind
     if "block predicate" in verdict:
         return "C15:%s:block-predicate" % kind
     if "incomplete" in verdict:
@@ -293,12 +323,12 @@ SAN_ENV = {"ASAN_OPTIONS": "allocator_may_return_null=1:detect_leaks=0:abort_on_
 
 
 def build(ctx, san=True):
-    ncfg = write_configs(ctx)
+    ncfg, sancfg = write_configs(ctx)
     jobs = [dict(srcs=[H], out=ctx.path("impl"), opt="-O1", flags=["-I" + ctx.build], repo_srcs=REPO_SRCS)]
     if san:
-        jobs.append(dict(srcs=[H], out=ctx.path("impl_san"), san=True, flags=["-I" + ctx.build], repo_srcs=REPO_SRCS))
+        jobs.append(dict(srcs=[H], out=ctx.path("impl_san"), san=True, flags=["-I" + ctx.build, '-DCONFIGS_INC="configs_san.inc"'], repo_srcs=REPO_SRCS))
     outs = V.cxx_many(ctx, jobs)
-    return outs, ncfg
+    return outs, (ncfg, sancfg)
 
 
 def run_all(ctx, model, impl, cases, tag):
@@ -318,7 +348,7 @@ def run_all(ctx, model, impl, cases, tag):
 def shrink(ctx, model, impl, case, sig, impl_line, verdict):
     """Delta debugging on the op sequence (abstract events, frees follow their allocation), impl + oracle in the loop."""
     kind, par, ops = case_parts(case)
-    if kind == "isaligned":
+    if kind in ("isaligned", "alignedbase"):
         return (case, impl_line, verdict)
     suc = succeeds_fn(kind, par)
     try:
@@ -354,10 +384,22 @@ def shrink(ctx, model, impl, case, sig, impl_line, verdict):
     return best
 
 
+def coqchk(ctx):
+    """thorough tier: independent re-check of the compiled property file (and everything it depends on) by coqchk"""
+    with V.locked("coq"):
+        rc, out = V.sh(["coqchk", "-silent", "-o", "-Q", ".", "DuneV", "DuneV.Properties_C15"], cwd=V.COQ, timeout=1800)
+    m = re.search(r"\* Axioms:\s*(.*?)\n\s*\n", out, re.S)
+    ctx.coverage["coqchk"] = {"rc": rc, "axioms": (m.group(1).strip() if m else "?"), "tail": out[-300:] if rc else ""}
+    if rc != 0:
+        ctx.violation("coq:coqchk", {"broken": "coqchk rejects the compiled development", "log": out[-3000:]}, found_input=False)
+
+
 def run(ctx):
-    V.coq_stage(ctx)
+    ok = V.coq_stage(ctx)
+    if ok and not ctx.quick:
+        coqchk(ctx)
     model = V.build_model(ctx)
-    (outs, ncfg) = build(ctx, san=True)
+    (outs, (ncfg, sancfg)) = build(ctx, san=True)
     impl, impl_san = outs
     cases = gen(ctx)
     ctx.log("generated %d cases on %d instantiations" % (len(cases), ncfg))
@@ -403,7 +445,7 @@ def run(ctx):
                 ctx.violation("corr:C15/%s" % kind, {"broken": "corr:C15/%s (impl differs from model, spec oracle accepts the impl's trace)" % kind,
                                                      "case": c[:4000], "impl": a[:4000], "model": mm[:4000], "oracle": "accepts impl output"}, found_input=False)
     # sanitizer build: pool / malloc / debug / isaligned cases (aligned_alloc with size not a multiple of the alignment is rejected by ASan itself)
-    sub = [i for i, c in enumerate(cases) if not c.startswith("aligned")][::(5 if ctx.quick else 2)]
+    sub = [i for i, c in enumerate(cases) if not c.startswith("aligned") and (c.startswith("isaligned") or config_of(c) in sancfg)][::(2 if ctx.quick else 1)]
     so = V.run_cases(ctx, [impl_san], [cases[i] for i in sub], tag="san", timeout=300 if ctx.quick else 1500, env=SAN_ENV)
     nsan = 0
     dif = [(i, so[j]) for j, i in enumerate(sub) if j < len(so) and so[j] != io[i]]
